@@ -43,7 +43,13 @@ type c17Case struct {
 	Doc     *jv.V      `json:"doc"` // without probes
 	Probes  []c17Probe `json:"probes"`
 	Markers int        `json:"markers"`
+	// FalseNot: known-finding slice. One leaf is the boolean schema false and one negative probe
+	// descends into it through "/not" (Unmarshal turns false into {"not":{}}, whose child the
+	// pointer walk then finds).
+	FalseNot bool `json:"false_not,omitempty"`
 }
+
+const c17FalseNotWhy = "descends into the boolean schema false"
 
 type kwInfo struct {
 	name string
@@ -269,6 +275,20 @@ func genC17(t *rapid.T) *c17Case {
 			l = l2
 		}
 		c.Probes = append(c.Probes, c17Probe{Ref: "#" + fragmentEncode(t, l.ptr), Intended: l.ptr, Segs: l.segs, Escaped: l.esc, Union: l.union})
+	}
+	if rapid.IntRange(0, 19).Draw(t, "falsenot") == 0 {
+		var leaves []c17loc
+		for _, l := range locs {
+			if l.node.K == jv.Obj && len(l.node.O) == 1 && l.node.Has("const") && l.segs > 2 {
+				leaves = append(leaves, l)
+			}
+		}
+		if len(leaves) > 0 {
+			l := leaves[rapid.IntRange(0, len(leaves)-1).Draw(t, "falseleaf")]
+			*l.node = *jv.BoolV(false)
+			c.FalseNot = true
+			c.Probes = append(c.Probes, c17Probe{Ref: "#" + fragmentEncode(t, l.ptr+"/not"), Negative: true, Why: c17FalseNotWhy})
+		}
 	}
 	return c
 }
@@ -506,7 +526,13 @@ func propC17(rec *ev.Recorder) func(t *rapid.T) {
 			rec.Flush()
 			t.Fatalf("%s", fl.Msg)
 		}
+		rec.ClassIf(c.FalseNot, "feature:pointer-into-false-schema")
 		if fl != nil {
+			if c.FalseNot && knownOpen("false-schema-has-not-child") && strings.Contains(fl.Msg, c17FalseNotWhy) {
+				rec.Known("false-schema-has-not-child", "a pointer ending in /not below a subschema that is the boolean false resolves to the empty schema inside Unmarshal's {\"not\":{}} rendering of false instead of making Resolve fail")
+				rec.Case()
+				return
+			}
 			report(t, rec, c, fl)
 		}
 		rec.Case()
